@@ -555,12 +555,14 @@ class SqlalchemyRender:
                 if isinstance(col.default, str):
                     default = sa.text(col.default)
 
-            if isinstance(col.type, str) and col.type.lower() == 'serial':
-                col.is_primary_key = True
-                col.type = 'INT'
+            # don't change the caller's tree
+            col_type, is_primary_key = col.type, col.is_primary_key
+            if isinstance(col_type, str) and col_type.lower() == 'serial':
+                is_primary_key = True
+                col_type = 'INT'
 
             kwargs = {
-                'primary_key': col.is_primary_key,
+                'primary_key': is_primary_key,
                 'server_default': default,
             }
             if col.nullable is not None:
@@ -569,7 +571,7 @@ class SqlalchemyRender:
             columns.append(
                 sa.Column(
                     col.name,
-                    self.get_type(col.type),
+                    self.get_type(col_type),
                     **kwargs
                 )
             )
